@@ -21,7 +21,7 @@ class VerifHang(BaseException):
 
 # A chain of values that stand for one another never takes more steps than there
 # are definitions in the program; far beyond that it is going round in circles
-MAX_WAIT_STEPS = 10000
+MAX_WAIT_STEPS = 2000
 
 
 def wait(deferred):
@@ -326,6 +326,10 @@ class LinearPolynomial(BaseDeferred):
                 key = key.wait()
             if isinstance(key, BaseDeferred):
                 key = key.get_current_best_estimate()
+
+            if key is variable and isinstance(variable, Deferred) and variable.settled:
+                # x = x, or x = y with y = x
+                raise DeferredCycle()
 
             if isinstance(key, LinearPolynomial):
                 if variable in key.coeffs:
